@@ -50,12 +50,14 @@ V("C01", "ninth-collection-ignored", "F", "R1", R + "report.py",
 
 # ----------------------------------------------------------------- C03
 CFP = R + "covered_files.py"
-V("C03", "license-only-S", "F", "R1", CFP, 're.compile(r"^LICEN[CS]E([-\\.].*)?$")', 're.compile(r"^LICENSE([-\\.].*)?$")')
-V("C03", "license-suffix-any", "F", "R1", CFP, 're.compile(r".*\\.license$")', 're.compile(r".*license$")')
+V("C03", "license-only-S", "F", "R1", CFP, 're.compile(r"^LICEN[CS]E([-\\.].*)?$", re.DOTALL)', 're.compile(r"^LICENSE([-\\.].*)?$", re.DOTALL)')
+V("C03", "license-suffix-any", "F", "R1", CFP, 're.compile(r".*\\.license$", re.DOTALL)', 're.compile(r".*license$", re.DOTALL)')
 V("C03", "makefile-ignored", "F", "R1", CFP, '    re.compile(r"^\\.hgtags$"),\n', '    re.compile(r"^\\.hgtags$"),\n    re.compile(r"^Makefile$"),\n')
-V("C03", "spdx-dot-unescaped-again", "F", "R1", CFP, 're.compile(r".*\\.spdx\\.(rdf|json|xml|ya?ml)$")', 're.compile(r".*\\.spdx.(rdf|json|xml|ya?ml)$")')
-V("C03", "copying-prefix", "F", "R1", CFP, 're.compile(r"^COPYING([-\\.].*)?$")', 're.compile(r"^COPYING.*$")')
-V("C03", "reuse-dir-unanchored", "F", "R1", CFP, 're.compile(r"^\\.reuse$")', 're.compile(r"^\\.reuse")')
+V("C03", "spdx-dot-unescaped-again", "F", "R1", CFP, 're.compile(r".*\\.spdx\\.(rdf|json|xml|ya?ml)$", re.DOTALL)', 're.compile(r".*\\.spdx.(rdf|json|xml|ya?ml)$", re.DOTALL)')
+V("C03", "copying-prefix", "F", "R1", CFP, 're.compile(r"^COPYING([-\\.].*)?$", re.DOTALL)', 're.compile(r"^COPYING.*$", re.DOTALL)')
+# under fullmatch() the anchors of an entry are redundant: dropping one is not a different language any more
+V("C03", "reuse-dir-unanchored", "S", "", CFP, 're.compile(r"^\\.reuse$")', 're.compile(r"^\\.reuse")')
+V("C03", "reuse-dir-prefix-language", "F", "R1", CFP, 're.compile(r"^\\.reuse$")', 're.compile(r"^\\.reuse.*")')
 V("C03", "no-symlink-test", "F", "R2", CFP, "    if path.is_symlink():\n        _LOGGER.debug(\"skipping symlink '%s'\", path)\n        return True\n", "")
 V("C03", "size-le-1", "F", "R2", CFP, "if path.stat().st_size == 0:", "if path.stat().st_size <= 1:")
 V("C03", "submodule-flag-inverted", "F", "R2", CFP, "            not include_submodules\n            and vcs_strategy", "            include_submodules\n            and vcs_strategy")
@@ -68,7 +70,7 @@ V("C03", "swap-include-flags", "F", "R4", R + "project.py",
 V("C03", "iterate-dirs-without-copy", "F", "R3", CFP, "for dir_ in list(dirs):", "for dir_ in dirs:")
 V("C03", "no-prune", "F", "R3", CFP, "                dirs.remove(dir_)\n", "")
 V("C03", "yield-ignored", "F", "R3", CFP, "                _LOGGER.debug(\"ignoring '%s'\", the_file)\n                continue\n", "                _LOGGER.debug(\"ignoring '%s'\", the_file)\n")
-V("C03", "drop-z", "F", "R5", R + "vcs.py", '            "--no-empty-directory",\n            # Separate output with \\0 instead of \\n.\n            "-z",\n', '            "--no-empty-directory",\n')
+V("C03", "drop-z", "F", "R5", R + "vcs.py", '            "--directory",\n            # Separate output with \\0 instead of \\n.\n            "-z",\n', '            "--directory",\n')
 V("C03", "file-loop-drops-vcs", "F", "R3", CFP,
   "                include_reuse_tomls=include_reuse_tomls,\n                vcs_strategy=vcs_strategy,\n            ):\n                _LOGGER.debug(\"ignoring '%s'\", the_file)",
   "                include_reuse_tomls=include_reuse_tomls,\n            ):\n                _LOGGER.debug(\"ignoring '%s'\", the_file)")
@@ -91,8 +93,10 @@ V("C05", "escaping-not-reset", "F", "R2", GLP,
   "                    blocks.append(re.escape(char))\n                    globstar = False\n")
 V("C05", "escaped-star-arms-wildcard-again", "F", "R2", GLP,
   "                        # A literal asterisk must not arm the wildcard logic.\n                        char = \"\"\n", "")
-V("C05", "unanchored", "F", "R2", GLP, 'return f"^({result})$"', 'return f"({result})"')
-V("C05", "search-instead-of-match", "F", "R1", GLP, "return bool(self._paths_regex.match(path))", "return bool(self._paths_regex.search(path))")
+V("C05", "unanchored", "S", "", GLP, 'return f"^({result})$"', 'return f"({result})"')   # redundant under fullmatch()
+V("C05", "prefix-language", "F", "R2", GLP, 'return f"^({result})$"', 'return f"^({result}).*$"')
+V("C05", "search-instead-of-match", "F", "R2", GLP, "return bool(self._paths_regex.fullmatch(path))", "return bool(self._paths_regex.search(path))")   # every alternative is anchored at both ends; the trailing-newline reading of `$` is what differs
+V("C05", "match-instead-of-fullmatch", "F", "R2", GLP, "return bool(self._paths_regex.fullmatch(path))", "return bool(self._paths_regex.match(path))")
 V("C05", "trailing-star-dropped", "F", "R2", GLP,
   '            if prev_char == "*" and not globstar:\n                blocks.append(r"[^/]*")\n            result = "".join(blocks)', '            result = "".join(blocks)')
 V("C05", "no-posix", "F", "R3", GLP,
@@ -198,7 +202,7 @@ V("C06", "missing-only-if-not-bad", "F", "R1", RPT, "                    # Missi
 V("C06", "glob-not-recursive", "F", "R4", PRJ, "glob.iglob(directory, recursive=True)", "glob.iglob(directory, recursive=False)")
 V("C06", "unused-ignores-plus", "F", "R3", RPT, "for identifier in set((lic, _add_plus_to_identifier(lic)))", "for identifier in set((lic,))")
 V("C06", "lowercase-identifier", "F", "R5", RPT, "                for identifier in _LICENSING.license_keys(expression):\n", "                for identifier in _LICENSING.license_keys(expression):\n                    identifier = identifier.lower()\n")
-V("C06", "licenseref-allows-underscore", "F", "R5", EXP, '_LICENSEREF_PATTERN = re.compile("LicenseRef-[a-zA-Z0-9-.]+$")', '_LICENSEREF_PATTERN = re.compile("LicenseRef-[a-zA-Z0-9-._]+$")')
+V("C06", "licenseref-allows-underscore", "F", "R5", EXP, '_LICENSEREF_PATTERN = re.compile(r"LicenseRef-[a-zA-Z0-9-.]+\\Z")', '_LICENSEREF_PATTERN = re.compile(r"LicenseRef-[a-zA-Z0-9-._]+\\Z")')
 V("C06", "duplicates-overwrite", "F", "R4", PRJ, '                raise RuntimeError("Multiple licenses resolve to {identifier}")\n', "")
 V("C06", "no-extension-not-recorded", "F", "R4", PRJ, "                    self.licenses_without_extension[identifier] = path\n", "")
 V("C06", "strip-plus-strips-more", "F", "R1", R + "_util.py", '    if spdx_identifier.endswith("+"):\n        return spdx_identifier[:-1]', '    if spdx_identifier.endswith("+"):\n        return spdx_identifier[:-2]')
@@ -399,7 +403,7 @@ S2("C13", "rename-lic-loopvar", LNT, r"\blic\b", "licence")
 S2("C02", "rename-read_limit", EXP, r"\bread_limit\b", "limit")
 S2("C02", "log-message", EXP, "seems to contain an SPDX Snippet", "looks like it has an SPDX snippet")
 S2("C04", "rename-file_result", PRJ, r"\bfile_result\b", "own_info")
-S2("C03", "inline-name", R + "covered_files.py", r"pattern\.match\(name\)", "pattern.match(path.name)")
+S2("C03", "inline-name", R + "covered_files.py", r"pattern\.fullmatch\(name\)", "pattern.fullmatch(path.name)")
 for _p in ("C08", "C11"):
     S2(_p, "rename-line_ending", ANP, r"\bline_ending\b", "eol")
 for _p in ("C15", "C19"):
@@ -456,8 +460,8 @@ VARIANTS.append({"prop": "C01", "id": "C01:benign2-verdict-list", "expect": "S",
     {"file": RPT, "old": "                self.read_errors,\n            )\n        )\n\n        return self._is_compliant", "new": "                self.read_errors,\n            ]\n        )\n\n        return self._is_compliant"}]})
 B("C13", "len-guard", LNT, "        if report.bad_licenses:\n", "        if len(report.bad_licenses) > 0:\n")
 B("C03", "any-instead-of-loop", R + "covered_files.py",
-  "        for pattern in _IGNORE_DIR_PATTERNS:\n            if pattern.match(name):\n                return True\n",
-  "        if any(pattern.match(name) for pattern in _IGNORE_DIR_PATTERNS):\n            return True\n")
+  "        for pattern in _IGNORE_DIR_PATTERNS:\n            if pattern.fullmatch(name):\n                return True\n",
+  "        if any(pattern.fullmatch(name) for pattern in _IGNORE_DIR_PATTERNS):\n            return True\n")
 B("C04", "plus-equals-instead-of-extend", PRJ, "        result.extend(global_results[PrecedenceType.AGGREGATE])\n", "        result += global_results[PrecedenceType.AGGREGATE]\n")
 B("C12", "find-instead-of-in", EXP, "    if REUSE_IGNORE_START in text:\n        ignore_start = text.index(REUSE_IGNORE_START)", "    if text.find(REUSE_IGNORE_START) != -1:\n        ignore_start = text.index(REUSE_IGNORE_START)")
 B("C01", "exit-via-local", R + "cli/lint.py", "    sys.exit(0 if report.is_compliant else 1)", "    exit_code = 0 if report.is_compliant else 1\n    sys.exit(exit_code)")
@@ -698,3 +702,8 @@ V("C14", "worker-reparse-guard-without-has-dep5", "S", "", R + "report.py", "   
 V("C17", "worker-reparse-guard-without-has-dep5", "S", "", R + "report.py", "        if self.has_dep5 and not self.reuse_dep5:\n", "        if not self.reuse_dep5:\n")
 V("C14", "worker-does-not-store-dep5", "F", "R2", R + "report.py", "                self.project.global_licensing = self.reuse_dep5\n", "                pass\n")
 V("C17", "matcher-emits-nonslash-run-after-globstar", "S", "", GLP, '                    if prev_char == "*" and not globstar:\n                        blocks.append(r"[^/]*")\n                    blocks.append(re.escape(char))', '                    if prev_char == "*":\n                        blocks.append(r"[^/]*")\n                    blocks.append(re.escape(char))')
+# the empty-glob filter is harmless only while the compiled globs must match the whole path
+V2("C05", "empty-glob-filter-under-prefix-match", "F", "R1", [
+    (GLP, '"|".join(translate(path) for path in self.paths), re.DOTALL\n', '"|".join(translate(path) for path in self.paths if path), re.DOTALL\n'),
+    (GLP, "return bool(self._paths_regex.fullmatch(path))", "return bool(self._paths_regex.match(path))")])
+V("C05", "empty-glob-filter-under-fullmatch", "S", "", GLP, '"|".join(translate(path) for path in self.paths), re.DOTALL\n', '"|".join(translate(path) for path in self.paths if path), re.DOTALL\n')
